@@ -2537,14 +2537,18 @@ async fn handle_stun_request(
 
     // Outside WebRTC mode requests carry no credentials, so the source address of a
     // datagram is all it takes to get here. Without a bound every spoofed source became a
-    // permanent remote candidate (scanned again for each later request) and a connectivity
-    // check towards it.
+    // permanent remote candidate (scanned again for each later request). The table of
+    // learned candidates is therefore bounded — by replacing its oldest entry, never the
+    // selected pair's: ignoring new sources instead would let 64 spoofed requests lock the
+    // genuine peer's next address out of latching and nomination for the rest of the session.
     if !known && learned >= MAX_LEARNED_PEER_REFLEXIVE {
-        debug!(
-            "Ignoring STUN request from {}: {} peer reflexive candidates already learned",
-            addr, learned
-        );
-        return;
+        let keep = inner.selected_pair.lock().as_ref().map(|p| p.remote.address);
+        let mut list = inner.remote_candidates.lock();
+        if let Some(pos) = list.iter().position(|c| {
+            c.typ == IceCandidateType::PeerReflexive && Some(c.address) != keep
+        }) {
+            list.remove(pos);
+        }
     }
 
     if !known {
